@@ -74,6 +74,16 @@ Theorem C02_hash_result_commutes :
     st_equiv s12 s21.
 Proof. exact hash_result_commutes. Qed.
 
+(* A CONFIRMED hash result against a static declaration (any creator, any state of the declared
+   paths: absent, orphaned, stale) that does not mention the confirmed path. *)
+Theorem C02_confirm_static_commute :
+  forall (s sa sb s12 s21 : st) (p : str) (h : option N) (c : key) (ps : list str),
+    no_file_creator_b s = true -> not_file c -> NoDup ps -> ~ In p ps -> calm_path p s = true ->
+    step_op (OpUpdateHashes CConfirmed [(p, h)]) s = Ok sa -> step_op (OpDeclareStatic c ps) sa = Ok s12 ->
+    step_op (OpDeclareStatic c ps) s = Ok sb -> step_op (OpUpdateHashes CConfirmed [(p, h)]) sb = Ok s21 ->
+    st_equiv s12 s21.
+Proof. exact confirm_static_commute. Qed.
+
 (* the overlapping case: confirmation and declaration of the SAME path do not commute ... *)
 Theorem C02_confirm_vs_static_same_path_refuted :
   refutes w_confirm_vs_static_same_path w_confirm_vs_static_same_path_r1
@@ -143,5 +153,6 @@ Example C02_hash_result_example :
   let s := run_ops (ex_boot ++ [OpDeclareStatic (KStep, [97]) [[120]]; OpDeclareStatic (KStep, [98]) [[122]];
                                 OpDefineStep (KStep, [80]) [99] [[120]] [] [] [] NDefault]) (init_st 3) in
   calm_path [120] s = true /\ calm_path [122] s = true /\ step_sinks_of_file [120] s = [[99]] /\
-  both_orders (OpUpdateHashes CConfirmed [([120], Some 7)]) (OpUpdateHashes CConfirmed [([122], None)]) s = VCommute.
+  both_orders (OpUpdateHashes CConfirmed [([120], Some 7)]) (OpUpdateHashes CConfirmed [([122], None)]) s = VCommute /\
+  both_orders (OpUpdateHashes CConfirmed [([120], Some 7)]) (OpDeclareStatic (KStep, [98]) [[121]]) s = VCommute.
 Proof. vm_compute. repeat split; reflexivity. Qed.
